@@ -61,7 +61,8 @@ Definition split_last {A} (l : list A) : option (list A * A) :=
    3 [q1..qk; (q1) OR .. OR (qk)]   4 [f:[a TO b]; f:>=a; f:<=b] (or the exclusive forms)
    5 two queries that must agree (half-open range vs one comparison, [* TO *] vs _exists_, De Morgan)
    6 [leaf on f; _exists_:f]  (a leaf that holds implies the attribute exists)
-   7 [_missing_:f; _exists_:f] *)
+   7 [_missing_:f; _exists_:f]
+   8 [f:v; f:[v TO *]; f:[* TO v]; f:[v TO v]]  (a field equal to v lies within every range whose bounds are v) *)
 Definition law (kind : N) (bs : list bool) : bool :=
   match kind with
   | 1%N => match bs with [a; b] => Bool.eqb b (negb a) | _ => true end
@@ -71,6 +72,7 @@ Definition law (kind : N) (bs : list bool) : bool :=
   | 5%N => match bs with [a; b] => Bool.eqb a b | _ => true end
   | 6%N => match bs with [a; b] => implb a b | _ => true end
   | 7%N => match bs with [a; b] => Bool.eqb a (negb b) | _ => true end
+  | 8%N => match bs with a :: rest => implb a (forallb (fun x => x) rest) | _ => true end
   | _ => true
   end.
 
